@@ -95,7 +95,12 @@ class GMRF(CallableModel):
         )
 
     def _sample_shape(self) -> torch.Size:
-        return self.field.tensor.shape[:-1]
+        shapes = [self.field.tensor.shape[:-1], self.precision.tensor.shape[:-1]]
+        if self.tree_model is not None:
+            shapes.append(self.tree_model.sample_shape)
+        elif self.weights is not None:
+            shapes.append(getattr(self.weights, 'tensor', self.weights).shape[:-1])
+        return torch.broadcast_shapes(*shapes)
 
     def precision_matrix(self) -> torch.Tensor:
         dim = self.field.shape[-1]
